@@ -127,6 +127,7 @@ type Sim struct {
 	lastReset  int
 	resetSnap  *resetSnapshot
 	firedLog   []string
+	firedRaw   []firing
 }
 
 // NewSim creates a world per the configuration and registers padding and universe types.
